@@ -309,6 +309,11 @@ def _run_case(case):
                     if ev.get("set_period"):
                         sp = ev["set_period"]
                         spec.set_sampling_period(sp[0], sp[1], sp[2])
+                    if ev.get("io"):
+                        # the input / output declarations changed on a parsed object, which is then parsed again (C06)
+                        for v, t in sorted(ev["io"].items()):
+                            spec.set_var_io_type(v, t)
+                        spec.parse()
                 elif a == "explain":
                     spec = specs[oi]
                     ev["rep"] = {v: [] for v in o["vars"]}
